@@ -39,6 +39,11 @@ def check(ctx):
     _task_and_data(ctx, mod, ga)
     _sched.ownership(ctx)
     C02._batch(ctx, mod)
+    # multiprocessing.get culls/fuses the *legacy* graph: the dependency extractor it relies on must
+    # see every nested key the converter will later evaluate (shared with C08)
+    from . import C08
+
+    C08.extractor_kinds(ctx, model.module("dask/core.py").func("keys_in_tasks"))
 
 
 def _get_async_calls(func):
@@ -316,6 +321,7 @@ VARIANTS = [
     (LOCAL, "chunksize = max(-(ntasks // -num_workers), 1)", "chunksize = -(ntasks // -num_workers)", "ABS.batch.width-positive"),
     (LOCAL, "dsk, keys=results, cache=cache, sortkey=keyorder.get", "dsk, keys=None, cache=cache, sortkey=keyorder.get", "DELEG.start-state-args"),
     ("dask/core.py", "    return result[keys]\n", "    return result.get(keys)\n", "SIB.nesting"),
+    ("dask/core.py", "            elif typ is list:\n                work.extend(w)\n            elif typ is dict:\n                work.extend(w.values())", "            elif typ is list or typ is dict:\n                work.extend(w)", "SIB.extract.projection"),
 ]
 
 
